@@ -245,6 +245,7 @@ static void check_new_block(Block* b, const char* what, bool natural_align) {
 
 static bool null_allowed(const Op& op) {
   if (op.flags & OPF_MAY_FAIL) return true;
+  if ((op.flags & OPF_MUST_SUCCEED) && !os_any_fault_active() && op.faults.empty()) return false;
   if (!H.plan->expect_no_null) return true;
   if (os_faults_fired() > 0 || os_any_fault_active()) return true;
   return false;
@@ -406,7 +407,8 @@ static void do_realloc(const Op& op) {
 
   if (q == nullptr) {
     H.nulls++; probe(PR_alloc_null);
-    bool legit = fail_ok || overflow || newreq > (size_t)PTRDIFF_MAX;
+    bool legit = fail_ok || null_allowed(op) || overflow || newreq > (size_t)PTRDIFF_MAX;
+    if (overflow || newreq > (size_t)PTRDIFF_MAX) T->got_err_mask &= ~(EB_EOVERFLOW | EB_ENOMEM);   // the debug build reports the overflow
     if (!legit) sim_violation("unexpected_null", "%s(%p, %llu, %llu) returned NULL although the request is well-formed and the OS refused nothing", what, p, (unsigned long long)a, (unsigned long long)bb);
     if (old) {
       if (frees_on_fail) { delete old; }   // mi_reallocf released it
@@ -446,7 +448,9 @@ static void do_realloc(const Op& op) {
   nb->zchain = zero && was_z && newreq >= oldreq;
   if (q == p && old && !zero) nb->zchain = false;
   if (old && !zero) nb->zchain = false;
-  check_new_block(nb, what, align == 0 && offset == 0 && !keeps_odd_offset && !(q == p && old && (old->offset != 0 || old->align != 0)));
+  if (keeps_odd_offset) nb->odd_origin = true;
+  if (q == p && old && (old->odd_origin || old->offset != 0 || old->align != 0)) nb->odd_origin = true;
+  check_new_block(nb, what, align == 0 && offset == 0 && !nb->odd_origin);
   model_insert(nb, what);
   if (zero && was_z && newreq > oldreq) zero_check(nb, nb->p, oldreq, newreq, what);
   block_fill(nb);
@@ -686,6 +690,7 @@ static void result_extra(JsonOut& o) {
 }
 
 static void purge_hook(int kind, uint64_t addr, uint64_t len);
+extern const char* (*g_op_name_of)(int prog, int op);
 
 [[noreturn]] void harness_run(const Plan& plan) {
   H.plan = &plan;
@@ -700,6 +705,7 @@ static void purge_hook(int kind, uint64_t addr, uint64_t len);
   os_set_faults(fs);
   g_result_extra = &result_extra;
   g_crash_context = []() -> const char* { return T ? T->note : ""; };
+  g_op_name_of = [](int prog, int op) -> const char* { if (prog >= 0 && prog < (int)H.plan->progs.size() && op >= 0 && op < (int)H.plan->progs[prog].ops.size()) return op_names[H.plan->progs[prog].ops[op].code]; return "thread start/exit"; };
   if (plan.purge_overlap_check) g_os_purge_hook = &purge_hook;
   sched_run(prog_main, (void*)0);
 }
